@@ -96,6 +96,15 @@ func drawTpl(rt *rapid.T, label string) int {
 	return 0
 }
 
+// drawSecondTpl draws the template of an additional connection: relayed ones are common
+// so that peers holding a direct and a relayed connection occur.
+func drawSecondTpl(rt *rapid.T, label string) int {
+	if rapid.IntRange(0, 99).Draw(rt, label+"-relayed") < 35 {
+		return 9 + rapid.IntRange(0, 2).Draw(rt, label+"-which")
+	}
+	return drawTpl(rt, label)
+}
+
 // ---------------------------------------------------------------------------
 // configuration of one case
 
@@ -158,7 +167,11 @@ func drawConfig(rt *rapid.T) config {
 		}
 		var l []int
 		for j := 0; j < n; j++ {
-			l = append(l, drawTpl(rt, "tpl"))
+			if j == 0 {
+				l = append(l, drawTpl(rt, "tpl"))
+			} else {
+				l = append(l, drawSecondTpl(rt, "tpl2"))
+			}
 		}
 		c.Init = append(c.Init, l)
 	}
@@ -275,6 +288,7 @@ type world struct {
 	nsCalls      int
 
 	known1, known2 bool
+	probeCaps      int // generator heuristic: after a refused refresh, let other peers ask for reservations
 	excluded       bool
 
 	trace      []string
